@@ -189,8 +189,27 @@ class Index(object):
         self._subclasses = {}
         self.unresolved_calls = 0
         self.resolved_calls = 0
+        self.unreviewed = []
+        self.normalization = {}
         for pkg in packages:
             self._load_package(pkg)
+        self.rebuild()
+
+    def rebuild(self):
+        """(Re)build every table from the module trees (used after the trees were normalised in place)."""
+        self.funcs = {}
+        self.classes = {}
+        self._subclasses = {}
+        if hasattr(self, '_by_node'):
+            del self._by_node
+        for m in self.modules.values():
+            set_parents(m.tree)
+            m.imports = {}
+            m.star_imports = []
+            m.funcs = {}
+            m.classes = {}
+            m.assigns = {}
+            m.all_funcs = []
         for m in list(self.modules.values()):
             self._collect(m)
         for c in self.classes.values():
